@@ -251,3 +251,107 @@ chk(Check('C17', 'fault_enumeration', ['wal'],
           {'c17_lines': {'quick': 1200, 'thorough': 15000}, 'c17_payloads': {'quick': 600, 'thorough': 8000}, 'c17_failed_writes': {'quick': 600, 'thorough': 8000}, 'c17_processed': {'quick': 2500, 'thorough': 30000}, 'c17_differential_runs': {'quick': 150, 'thorough': 2000}},
           'random bus programs (1-3 buses, nesting, forwarding, parallel handlers) with real WAL files under /verif/.work, generated payloads (nested containers, unicode incl. astral plane and control characters, aware/naive datetimes, big ints, extra fields); failing paths (/dev/full, parent is a regular file, path is a directory) and source-free failpoints that make the n-th anyio.open_file / the n-th write raise OSError (n sampled from 1..11); per bus: one WAL attempt per processed event, begun after all handlers of that (event,bus) exited, lines == successful attempts in order, every line validates back (id, type, parent, path at write time, payload value by value), failures logged at ERROR; differential clause: the same program re-run with every WAL failure removed shows identical deliveries, results, completion and await outcomes',
           'offline checker of real file contents against processing records + I/O fault injection at hooked open/write (failpoints) on a thread-aware virtual-time loop', [A_VT, A_OBS, A_GEN, 'payloads exclude lone surrogates and NaN/inf (not JSON round-trippable)', 'I/O faults are sampled positions (n-th open / n-th write), not an exhaustive enumeration of every position in every program']))
+
+
+class RunnerExitFamily(ScenarioFamily):
+    """C16, last clause: 'cancelling the bus's background task, as asyncio.run() does at exit, terminates it,
+    so a program that leaves a bus running can still exit' - through the real asyncio.Runner."""
+
+    def __init__(self):
+        super().__init__('runner_exit', ('C16',), gen.stop_base, 8, 120)
+
+    def cases(self, seed, tier, prop):
+        from . import engine
+        from .enumfam import instants_of
+        import copy
+        for i in range(self.n[tier]):
+            rng = _random.Random(f'{self.name}/{seed}/{i}')
+            base = gen.stop_base(rng, i)
+            base.pop('loop', None)
+            tr, _f, _m = engine.run_scenario(base)
+            pts = instants_of(tr)
+            cap = 25 if tier == 'quick' else 80
+            if len(pts) > cap:
+                pts = [pts[k] for k in sorted(rng.sample(range(len(pts)), cap))]
+            for j, t in enumerate(pts):
+                yield {'family': self.name, 'i': i, 'j': j, 't': t, 'scenario': copy.deepcopy(base)}
+
+    def execute(self, case, prop):
+        from . import engine
+        from .core import Result
+        ok, detail = engine.run_runner_exit(case['scenario'], case['t'])
+        engine.maybe_gc()
+        res = Result(counters={'c16_runner_exits': 1, 'c16_runner_exits_with_running_bus': 1 if detail.get('running_buses') else 0})
+        if not ok:
+            res.violations.append({'prop': 'C16', 'clause': 'asyncio-run-never-returns', 'mech': None, 'w': detail})
+        res.nontrivial = bool(detail.get('running_buses'))
+        res.fingerprint = f"{case['i']}:{detail.get('tasks_before_close')}:{detail.get('running_buses')}:{round(case['t'], 4)}"
+        res.sample = {'family': self.name, 't_exit': case['t'], 'detail': detail, 'buses': case['scenario']['buses'], 'actors': case['scenario']['actors'][:2]}
+        return res
+
+
+fam(RunnerExitFamily())
+CHECKS['C16'].families.append('runner_exit')
+CHECKS['C16'].floors['c16_runner_exits_with_running_bus'] = {'quick': 100, 'thorough': 4000}
+CHECKS['C16'].rule += '; plus the real asyncio.Runner path: the main coroutine returns at every enumerated instant leaving buses running and handlers in flight, Runner.close() (cancel all tasks, gather) must finish within 30 virtual seconds'
+
+
+class NoLoopFamily(ScenarioFamily):
+    """C14: dispatch() outside a running event loop must raise and leave no trace (fresh bus, bus used in an
+    earlier loop, bus with handlers / history limits)."""
+
+    def __init__(self):
+        super().__init__('noloop', ('C14',), None, 40, 400)
+
+    def cases(self, seed, tier, prop):
+        for i in range(self.n[tier]):
+            rng = _random.Random(f'noloop/{seed}/{i}')
+            yield {'family': self.name, 'i': i, 'used_before': rng.random() < 0.5, 'hist': rng.choice([None, 1, 5, 50]), 'n': rng.randint(1, 4), 'stopped': rng.random() < 0.5}
+
+    def execute(self, case, prop):
+        import asyncio
+        from . import engine
+        from .core import Result
+        from .vloop import VLoop, hard_close
+        engine.reset_globals(case['i'])
+        res = Result(counters={})
+        bus = engine.EventBus(name='NL', max_history_size=case['hist'])
+        bus.on(engine.E0, lambda e: None) if False else None
+        if case['used_before']:
+            loop = VLoop(seed=case['i'])
+            asyncio.set_event_loop(loop)
+
+            async def warm():
+                await bus.dispatch(engine.E0(tag=1))
+                if case['stopped']:
+                    await bus.stop()
+            try:
+                loop.run_until_complete(warm())
+            finally:
+                bus._is_running = False
+                hard_close(loop)
+        before = dict(bus.event_history)
+        for k in range(case['n']):
+            ev = engine.E1(tag=100 + k)
+            res.counters['c14_rejections'] = res.counters.get('c14_rejections', 0) + 1
+            res.counters['c14_noloop_dispatches'] = res.counters.get('c14_noloop_dispatches', 0) + 1
+            try:
+                bus.dispatch(ev)
+                res.violations.append({'prop': 'C14', 'clause': 'dispatch-without-loop-did-not-raise', 'mech': None, 'w': dict(case)})
+            except RuntimeError:
+                pass
+            except BaseException as ex:
+                res.violations.append({'prop': 'C14', 'clause': 'dispatch-without-loop-raised-unexpected', 'mech': None, 'w': dict(case, exc=repr(ex)[:120])})
+            if ev.event_id in bus.event_history or ev.event_path or ev.event_parent_id is not None:
+                res.violations.append({'prop': 'C14', 'clause': 'rejected-dispatch-left-a-trace', 'mech': None, 'w': dict(case, path=list(ev.event_path), inhist=ev.event_id in bus.event_history)})
+        if set(bus.event_history) != set(before):
+            res.violations.append({'prop': 'C14', 'clause': 'history-changed-by-rejected-dispatch', 'mech': None, 'w': dict(case)})
+        res.nontrivial = True
+        res.fingerprint = f"nl:{case['used_before']}:{case['hist']}:{case['n']}:{case['stopped']}"
+        res.sample = dict(case)
+        return res
+
+
+fam(NoLoopFamily())
+CHECKS['C14'].families.append('noloop')
+CHECKS['C14'].floors['c14_noloop_dispatches'] = {'quick': 50, 'thorough': 500}
